@@ -7,13 +7,17 @@ import KoordVerif.Proofs.C06ExtConc
 import KoordVerif.Proofs.C06ExtAlloc
 import KoordVerif.Proofs.C06ExtPolicy
 import KoordVerif.Proofs.C06ExtPolicyFull
+import KoordVerif.Proofs.C06ExtTakeGen
+import KoordVerif.Proofs.C06ExtTake
+import KoordVerif.Proofs.C06ExtAmpBind
 /-
 C06 — CPU and NUMA allocations are exact, disjoint and within capacity.
 
-Layer A (NUMA split, `tryBestToDistributeEvenly` per resource name) and Layer B (ledger,
-`NodeAllocation`) are proved for ALL inputs / histories of the model.  Layer C (picker): the
-accumulator and every take-loop of `takeCPUs` are proved to keep the contract; the candidate
-generators and the final assembly are not (see the end of the file).  Amounts are milli-units; `isum` is the list sum.
+Layer A (NUMA split, `tryBestToDistributeEvenly` per resource name), Layer B (ledger,
+`NodeAllocation`) and Layer C (picker, `takeCPUs` / `takePreferredCPUs` with every candidate generator:
+`take_exact`, `preferred_exact`) are proved for ALL inputs / histories of the model.  Open: the charge of
+cpu-bind pods against an AMPLIFIED NUMA capacity (`numa_amplified_bind_counterexample`).
+Amounts are milli-units; `isum` is the list sum.
 -/
 namespace KoordVerif.C06
 
@@ -342,6 +346,42 @@ example :
   refine ⟨?_, ?_, ?_⟩ <;> intro k <;> simp [cellOf, step, updatePod, releasePod, addPod, findPod, hasPod,
     Ledger.empty, getI, addCell, resSet, relCell, resHas, amplifyCaps, isCpuCell, amplify] <;> (repeat' split) <;> omega
 
+/-! ### cpu-bind pods on an amplified node (Proofs/C06ExtAmpBind.lean)
+
+Full statement aimed at (per-NUMA clause of the property, in the unit the capacity is expressed in):
+
+  numa_charged_within : 0 < cfg.den → Inv L → ChargedWithin cfg L → allocate cfg L req = some p →
+                          ChargedWithin cfg (step L (.upd p))
+
+where `ChargedWithin` = "what `getAvailableNUMANodeResources` itself charges every NUMA cell (recorded −
+cpusets + Amplify(cpusets)) is at most the capacity".  It is FALSE for the code as it is: a cpu-bind pod's RAW
+request is compared with (and recorded against) the AMPLIFIED free amount, but its CPUs are charged
+Amplify(cpus × 1000).  Proved: the counterexample, and the part that holds (charge = recorded amount when the
+ratio is ≤ 1 or no CPU of the node is bound; `numa_within_capacity` then bounds it). -/
+
+/-- raw 4 CPUs, ratio 2 ⇒ capacity 8000; 7000 held by a pod without cpu bind; a cpu-bind pod asking 1 CPU is
+    admitted (1000 ≤ 1000 free) and the node is then charged 9000. -/
+theorem numa_amplified_bind_counterexample :
+    ¬ (∀ (cfg : NodeCfg) (L : Ledger) (req : AllocReq) (p : PodAlloc), 0 < cfg.den → Inv L →
+        ChargedWithin cfg L → allocate cfg L req = some p → ChargedWithin cfg (step L (.upd p))) :=
+  ampBind_refutes
+
+/-- what holds: without amplification (ratio ≤ 1) or on a NUMA node none of whose CPUs is bound, the charge is
+    the recorded amount (which `numa_within_capacity` keeps within the capacity). -/
+theorem numa_charged_within_partial (num den : Int) (nodeOf : Nat → Nat) (L : Ledger) (k : Nat)
+    (hden : 0 < den) (h : num ≤ den ∨ allocCPUMilli nodeOf L.cpus (k / 16) = 0) :
+    chargedCell num den nodeOf L k = getI L.res k :=
+  charged_eq_recorded num den nodeOf L k hden h
+
+-- the witness, step by step
+example :
+    ampBindCfg.capacity = [(0, 8000)] ∧
+    availableCellAmp 2 1 ampBindCfg.nodeOf 8000 (run ampBindOps) 0 = 1000 ∧
+    (allocate ampBindCfg (run ampBindOps) ampBindReq).map (fun p => (p.cpus, p.numa)) = some ([0], [(0, 1000)]) ∧
+    chargedCell 2 1 ampBindCfg.nodeOf
+      (step (run ampBindOps) (.upd { uid := 2, excl := 0, cpus := [0], numa := [(0, 1000)] })) 0 = 9000 :=
+  ampBind_witness
+
 /-! ## Goroutines: informer `Update` / `Release` ∥ the scheduling goroutine's `Allocate` … `Update`
        (Proofs/C06ExtConc.lean; one `Act` = one critical section of `NodeAllocation.lock`) -/
 
@@ -416,43 +456,65 @@ example :
     | 0, _ => exact absurd rfl h0
     | (n + 2), hi => simp at hi
 
-/-! ## Layer C — picker (`takeCPUs`, Model/C06Pick.lean)
+/-! ## Layer C — picker (`takeCPUs` / `takePreferredCPUs`, Model/C06Pick.lean)
 
-Full statement aimed at (DESIGN §4 C06):
+`take_exact` and `preferred_exact` (DESIGN §4 C06) in full: the accumulator invariant `Good avail n` (result
+duplicate-free, inside `avail`, `|result| + numCPUsNeeded = n`, `numCPUsNeeded ≥ 0`) is kept by `take` and by
+every loop of `takeCPUs` (Proofs/C06Pick.lean); every candidate generator (`freeCoresIn`, `freeCPUsIn`,
+`freeCPUsAll`, `spreadCPUs`, `extractCPU`, the insertion sorts) returns duplicate-free lists of still
+allocatable CPUs, the per-socket lists being pairwise disjoint (Proofs/C06ExtTakeGen.lean); assembled over the
+phase skeleton in Proofs/C06ExtTake.lean.  Only premise: the topology lists every CPU id once (`TopoNodup`;
+`CPUDetails` is a Go map keyed by the CPU id). -/
 
-  take_exact : takeCPUs ctx full avail allocated n = some S → 1 ≤ n →
-                 S.length = n ∧ S.Nodup ∧ ∀ c ∈ S, c ∈ avail            (same for takePreferredCPUs)
+/-- **take_exact**: a successful `takeCPUs` returns exactly the requested number of distinct CPUs, all from
+    the set it was given — every topology, free set, allocated table (ref-counts, exclusive marks), bind and
+    exclusive policy, sharing limit, NUMA strategy, request. -/
+theorem take_exact (ctx : PickCtx) (htopo : TopoNodup ctx) (full : Bool) (avail : List Nat)
+    (allocated : List CpuI) (n : Int) (hn : 0 ≤ n) (S : List Nat)
+    (h : takeCPUs ctx full avail allocated n = some S) :
+    (S.length : Int) = n ∧ S.Nodup ∧ ∀ c ∈ S, c ∈ avail :=
+  have := takeCPUs_exact ctx htopo full avail allocated n S h
+  ⟨this.2.2 hn, this.1, this.2.1⟩
 
-Proved below (`…_partial`): the accumulator invariant `Good avail n` (result duplicate-free, inside
-`avail`, `|result| + numCPUsNeeded = n`, `numCPUsNeeded ≥ 0`) is kept by `take` and by EVERY loop
-through which `takeCPUs` takes CPUs — prefix take, whole-socket phase, core-by-core phase (this
-is where the guard added by the repair is needed), one-by-one phase — for ALL candidate lists
-that are duplicate-free, drawn from `avail`, new to the result and (when computed once and
-consumed in sequence) pairwise disjoint; and a `Good` accumulator that reports satisfied holds
-exactly `n` CPUs.  NOT proved: that the lists produced by `freeCoresIn` / `freeCPUsIn` /
-`freeCPUsAll` / `spreadCPUs` meet those premises (group-by + sort permutation lemmas), and the
-assembly over the phase skeleton.  Until then the end-to-end contract of the picker rests on the
-oracle (exact count, ⊆ free) and on the exact-CPU-id correspondence of the model. -/
+/-- **preferred_exact**: the same for `takePreferredCPUs`, with any set of preferred (restored) CPUs. -/
+theorem preferred_exact (ctx : PickCtx) (htopo : TopoNodup ctx) (full : Bool) (avail preferred : List Nat)
+    (allocated : List CpuI) (n : Int) (hn : 0 ≤ n) (S : List Nat)
+    (h : takePreferredCPUs ctx full avail preferred allocated n = some S) :
+    (S.length : Int) = n ∧ S.Nodup ∧ ∀ c ∈ S, c ∈ avail :=
+  have := takePreferredCPUs_exact ctx htopo full avail preferred allocated n S h
+  ⟨this.2.2 hn, this.1, this.2.1⟩
 
-/-- `take` keeps the accumulator invariant for any admissible candidate list that fits. -/
-theorem take_exact_partial_take (ctx : PickCtx) {avail : List Nat} {n : Int} {a : Acc}
+/-- a request below zero is answered with the empty set (`isSatisfied` at once), never with an error-free
+    non-empty set: the contract without the sign premise. -/
+theorem take_exact_any_sign (ctx : PickCtx) (htopo : TopoNodup ctx) (full : Bool) (avail : List Nat)
+    (allocated : List CpuI) (n : Int) (S : List Nat) (h : takeCPUs ctx full avail allocated n = some S) :
+    S.Nodup ∧ (∀ c ∈ S, c ∈ avail) ∧ (0 ≤ n → (S.length : Int) = n) :=
+  takeCPUs_exact ctx htopo full avail allocated n S h
+
+/-- the picker contract the glue relies on. -/
+theorem take_contract (ctx : PickCtx) (htopo : TopoNodup ctx) (full : Bool) (allocated : List CpuI) :
+    TakeOK ctx full allocated :=
+  fun avail need S h => takePreferredCPUs_exact ctx htopo full avail [] allocated need S h
+
+/-- the building blocks (each for ALL admissible candidate lists): `take` keeps the accumulator invariant. -/
+theorem take_keeps_good (ctx : PickCtx) {avail : List Nat} {n : Int} {a : Acc}
     (h : Good avail n a) (l : List Nat) (hl : ListOK avail a l) (hfit : (l.length : Int) ≤ a.need) :
     Good avail n (a.take ctx l) := take_good ctx h l hl hfit
 
 /-- a satisfied `Good` accumulator holds exactly `n` distinct CPUs of the free set. -/
-theorem take_exact_partial_done {avail : List Nat} {n : Int} {a : Acc} (h : Good avail n a)
+theorem good_satisfied_exact {avail : List Nat} {n : Int} {a : Acc} (h : Good avail n a)
     (hs : a.isSatisfied = true) :
     (a.result.length : Int) = n ∧ a.result.Nodup ∧ ∀ c ∈ a.result, c ∈ avail := good_done h hs
 
 /-- `acc.take(cpus[:acc.numCPUsNeeded]...)` on a list with at least that many CPUs. -/
-theorem take_exact_partial_prefix (ctx : PickCtx) {avail : List Nat} {n : Int} {a : Acc}
+theorem take_prefix_phase (ctx : PickCtx) {avail : List Nat} {n : Int} {a : Acc}
     (h : Good avail n a) (l : List Nat) (hl : ListOK avail a l) (hfit : (l.length : Int) ≥ a.need) :
     ((a.take ctx (l.take a.need.toNat)).result.length : Int) = n ∧
     (a.take ctx (l.take a.need.toNat)).result.Nodup ∧
     ∀ c ∈ (a.take ctx (l.take a.need.toNat)).result, c ∈ avail := take_prefix_exact ctx h l hl hfit
 
 /-- whole-socket phase: any number of sockets, any list sizes. -/
-theorem take_exact_partial_whole (ctx : PickCtx) {avail : List Nat} {n : Int} (ls : List (List Nat))
+theorem take_whole_phase (ctx : PickCtx) {avail : List Nat} {n : Int} (ls : List (List Nat))
     (a : Acc) (h : Good avail n a) (hl : ListsOK avail a ls) :
     Good avail n (takeWhole ctx a ls []).2.1 ∧
     ((takeWhole ctx a ls []).1 = true → (takeWhole ctx a ls []).2.1.isSatisfied = true) ∧
@@ -460,31 +522,64 @@ theorem take_exact_partial_whole (ctx : PickCtx) {avail : List Nat} {n : Int} (l
   takeWhole_good ctx ls a [] h (by simpa using hl)
 
 /-- core-by-core phase over the unsatisfied sockets, with the guard of the repaired code. -/
-theorem take_exact_partial_cores (ctx : PickCtx) {avail : List Nat} {n : Int} (ls : List (List Nat))
+theorem take_cores_phase (ctx : PickCtx) {avail : List Nat} {n : Int} (ls : List (List Nat))
     (a : Acc) (h : Good avail n a) (hl : ListsOK avail a ls) :
     Good avail n (takeCores ctx a ls).2 ∧
     ((takeCores ctx a ls).1 = true → (takeCores ctx a ls).2.isSatisfied = true) :=
   takeCores_good ctx ls a h hl
 
 /-- one-by-one phase. -/
-theorem take_exact_partial_singles (ctx : PickCtx) {avail : List Nat} {n : Int} (cs : List Nat)
+theorem take_singles_phase (ctx : PickCtx) {avail : List Nat} {n : Int} (cs : List Nat)
     (a : Acc) (h : Good avail n a) (hl : ListOK avail a cs) :
     Good avail n (takeSingles ctx a cs).2 ∧
     ((takeSingles ctx a cs).1 = true → (takeSingles ctx a cs).2.isSatisfied = true) :=
   takeSingles_good ctx cs a h hl
 
-/-! ### the glue `Allocate → allocateCPUSet` and the policy check (Model/C06Alloc.lean)
+/-- generator admissibility: the per-node / per-socket full-core lists are duplicate-free lists of allocatable
+    CPUs and pairwise disjoint; the free-CPU lists and the global list are duplicate-free lists of allocatable
+    CPUs; `spreadCPUs` only reorders. -/
+theorem generators_admissible (ctx : PickCtx) (a : Acc) (hnd : (a.alloc.map (·.cpu)).Nodup) :
+    (∀ byNode ff fe, ListsFrom a.alloc (freeCoresIn ctx a byNode ff fe)) ∧
+    (∀ byNode fe, ∀ l ∈ freeCPUsIn ctx a byNode fe, FromInfos a.alloc l) ∧
+    (∀ fe, FromInfos a.alloc (freeCPUsAll ctx a fe)) ∧
+    (∀ l, (spreadCPUs ctx l).Perm l) :=
+  ⟨fun byNode ff fe => freeCoresIn_ok ctx a hnd byNode ff fe, fun byNode fe => freeCPUsIn_ok ctx a hnd byNode fe,
+   fun fe => freeCPUsAll_ok ctx a hnd fe, fun l => spreadCPUs_perm ctx l⟩
 
-`alloc_exact` and `policy_sound` in the form they can be proved now: the glue is proved for ALL ledgers,
-requests and NUMA allocations, with the picker entering through its contract `TakeOK` (the statement
-`take_exact` above for `takePreferredCPUs` without restored CPUs — still partial, see the head of
-this section); `policy_sound` is proved in full for both policies (FullPCPUs by a counting argument
-over a topology whose cores have at most CPUsPerCore CPUs). -/
+/-! ### the glue `Allocate → allocateCPUSet` and the policy check (Model/C06Alloc.lean) -/
 
 /-- **alloc_exact**: a successful `allocateCPUSet` — through the per-NUMA-node loop or in one go —
     returns exactly `numCPUsNeeded` distinct CPUs, all available to the pod in the ledger of that
     moment, and when a bind policy is required the set passes `satisfiedRequiredCPUBindPolicy`. -/
-theorem alloc_exact_partial (cfg : NodeCfg) (L : Ledger) (req : AllocReq) (numaNodes : List (Nat × Int))
+theorem alloc_exact (cfg : NodeCfg) (L : Ledger) (req : AllocReq) (numaNodes : List (Nat × Int))
+    (htopo : cfg.cpuIds.Nodup) (hn : 0 ≤ req.ncpu)
+    (S : List Nat) (h : allocateCPUSet cfg L req numaNodes = some S) :
+    (S.length : Int) = req.ncpu ∧ S.Nodup ∧
+    (∀ c ∈ S, c ∈ availableCPUs cfg.cpuIds L.cpus cfg.maxRef cfg.reserved []) ∧
+    (req.required = true → satisfiedPolicy req.bind cfg.coreOf cfg.cpc S = true) :=
+  allocateCPUSet_exact cfg L req numaNodes (take_contract (cfg.pickCtx req.excl) htopo _ _) hn S h
+
+/-- hence every CPU handed out is in the topology, not reserved, and held by fewer pods than the sharing limit
+    (the max-ref-count filter of `getAvailableCPUs`). -/
+theorem alloc_within_limit (cfg : NodeCfg) (L : Ledger) (req : AllocReq) (numaNodes : List (Nat × Int))
+    (htopo : cfg.cpuIds.Nodup) (hn : 0 ≤ req.ncpu) (hmax : 1 ≤ cfg.maxRef)
+    (S : List Nat) (h : allocateCPUSet cfg L req numaNodes = some S) :
+    ∀ c ∈ S, c ∈ cfg.cpuIds ∧ c ∉ cfg.reserved ∧ refOf L.cpus c < cfg.maxRef := fun c hc =>
+  (available_spec cfg.cpuIds L.cpus cfg.maxRef cfg.reserved hmax c).mp
+    ((alloc_exact cfg L req numaNodes htopo hn S h).2.2.1 c hc)
+
+/-- what `Allocate` returns is `Drawn` (premise of `share_limit`) for the ledger it was computed on:
+    so a history in which every pod enters through Allocate + Update never exceeds the sharing limit. -/
+theorem allocate_drawn (cfg : NodeCfg) (L : Ledger) (req : AllocReq)
+    (htopo : cfg.cpuIds.Nodup) (hn : 0 ≤ req.ncpu)
+    (p : PodAlloc) (h : allocate cfg L req = some p) :
+    Drawn cfg.cpuIds cfg.maxRef cfg.reserved L (.add p) := by
+  intro _
+  have := allocate_cpus_drawn cfg L req (take_contract (cfg.pickCtx req.excl) htopo _ _) hn p h
+  exact ⟨this.2.1, this.2.2.1⟩
+
+/-- the same two statements relative to an assumed picker contract (the form of the previous round; kept). -/
+theorem alloc_exact_of_contract (cfg : NodeCfg) (L : Ledger) (req : AllocReq) (numaNodes : List (Nat × Int))
     (htake : TakeOK (cfg.pickCtx req.excl) (req.bind == 1) (allocatedInfos cfg L)) (hn : 0 ≤ req.ncpu)
     (S : List Nat) (h : allocateCPUSet cfg L req numaNodes = some S) :
     (S.length : Int) = req.ncpu ∧ S.Nodup ∧
@@ -492,9 +587,7 @@ theorem alloc_exact_partial (cfg : NodeCfg) (L : Ledger) (req : AllocReq) (numaN
     (req.required = true → satisfiedPolicy req.bind cfg.coreOf cfg.cpc S = true) :=
   allocateCPUSet_exact cfg L req numaNodes htake hn S h
 
-/-- what `Allocate` returns is `Drawn` (premise of `share_limit`) for the ledger it was computed on:
-    so a history in which every pod enters through Allocate + Update never exceeds the sharing limit. -/
-theorem allocate_drawn_partial (cfg : NodeCfg) (L : Ledger) (req : AllocReq)
+theorem allocate_drawn_of_contract (cfg : NodeCfg) (L : Ledger) (req : AllocReq)
     (htake : TakeOK (cfg.pickCtx req.excl) (req.bind == 1) (allocatedInfos cfg L)) (hn : 0 ≤ req.ncpu)
     (p : PodAlloc) (h : allocate cfg L req = some p) :
     Drawn cfg.cpuIds cfg.maxRef cfg.reserved L (.add p) := by
@@ -547,5 +640,10 @@ example :
     let ctx : PickCtx := { topo := topo, cpc := 2, cpn := 8, cps := 8, maxRef := 1, excl := 1, most := true }
     let avail := [2, 3, 4, 5, 6, 7, 8, 9, 10, 11, 16, 17, 18, 19]
     (takeCPUs ctx true avail [] 9).map (fun S => pickCheck avail 9 S) = some true := by decide
+
+-- non-vacuity of `TopoNodup` on that topology
+example : TopoNodup { topo := (List.range 24).map fun c => { cpu := c, core := c / 2, node := c / 8, socket := c / 8 },
+                      cpc := 2, cpn := 8, cps := 8, maxRef := 1, excl := 1, most := true } := by
+  unfold TopoNodup; decide
 
 end KoordVerif.C06
